@@ -53,14 +53,24 @@ def main():
         open(fname, "w").write(text)
     out = []
     k = 0
+    streams = {}
     steps = spec["steps"]
     while k < len(steps):
         st = steps[k]
         try:
             if st["via"] == "single":
                 fname = st.get("fname") or f"in_{st['c']}_{k}.pdb"
-                if st.get("mode") == "stream":
-                    mol = prun.single(fname, optargs=tuple(st["o"]) + ("-q",), stream=io.StringIO(spec["inputs"][st["c"]]), write_pka=True)
+                if st.get("mode") in ("stream", "stream-reused", "stream-read"):
+                    # the caller's stream object: a fresh one, the one an earlier step of this history already handed in (now
+                    # at its end), or one the caller has read a few lines of - the content is the same text
+                    if st["mode"] == "stream-reused":
+                        stream = streams.setdefault(st["c"], io.StringIO(spec["inputs"][st["c"]]))
+                    else:
+                        stream = io.StringIO(spec["inputs"][st["c"]])
+                        if st["mode"] == "stream-read":
+                            for _ in range(25):
+                                stream.readline()
+                    mol = prun.single(fname, optargs=tuple(st["o"]) + ("-q",), stream=stream, write_pka=True)
                 else:
                     open(fname, "w").write(spec["inputs"][st["c"]])
                     if st.get("fname"):
